@@ -392,7 +392,30 @@ def ptr3(cfg):
             res.ob(ok, {'rule': 'PTR-3', 'function': sh(f.sig)[:120], 'verdict': 'discharged' if ok else 'VIOLATION'})
             if not ok:
                 res.find(f, f.loc, 'qsbr_ptr_span::%s() does not return %s' % (f.short, {'begin': 'the stored start', 'size': 'the stored length', 'end': 'start + length'}[f.short]), key='span:' + f.short, config=cfg.name)
+    # the element count is kept at the width the span reports it in: a narrower field (or a narrower conversion on the way
+    # into it) wraps for spans of 2^32 elements and more - size(), end() and emptiness then differ from the source span
+    for nme, r in cfg.records.items():
+        if not nme.startswith('unodb::qsbr_ptr_span<'):
+            continue
+        for fl in r.get('fields', []):
+            if fl.get('name') == 'length' and fl.get('w'):
+                res.count('length fields')
+                okw = fl['w'] >= 64
+                res.ob(okw, {'rule': 'PTR-3', 'record': sh(nme)[:80], 'field': 'length', 'width': fl['w'], 'verdict': 'discharged' if okw else 'VIOLATION'})
+                if not okw:
+                    res.find(nme, r.get('loc'), 'qsbr_ptr_span::length is %d bits wide, std::span::size() is 64: the element count of a span of 2^%d elements or more wraps - size(), end() and empty() of the wrapper no longer agree with the span it was built from' % (fl['w'], fl['w']), key='span-length-width', config=cfg.name)
+    for f in fns:
+        if f.d.get('ctor') and f.params and 'std::span<' in f.params[0]['t']:
+            for b, i, e in f.elements():
+                if e.get('k') == 'init' and e.get('field') == 'length':
+                    narrow = []
+                    f.walk(e['e'], lambda x: narrow.append(x) if (x.get('k') == 'cast' and x.get('w') and x['w'] < 64 and x.get('t') != 'bool') else None)
+                    okc = not narrow
+                    res.ob(okc, {'rule': 'PTR-3', 'function': sh(f.sig)[:100], 'fact': 'size() reaches the length field without a narrowing conversion', 'verdict': 'discharged' if okc else 'VIOLATION'})
+                    if not okc:
+                        res.find(f, e.get('loc') or f.loc, 'qsbr_ptr_span(span) passes span.size() through a %d-bit conversion on its way into the length field: the element count wraps for spans of 2^%d elements or more' % (narrow[0]['w'], narrow[0]['w']), key='span-length-width', config=cfg.name)
     res.floor('span members', 4)
+    res.floor('length fields', 1)
     return res
 
 
